@@ -7,7 +7,8 @@ PROPS = {}
 
 PROPS['C10'] = dict(
     level='proof',
-    units=['freelist', 'txn', 'commit', 'open'],
+    composition='Verus lemmas L3 (contracts/lemmas.vtmpl: lemma_reuse_without_reader, lemma_retained_under_reader, lemma_reuse_resumes) on top of L2',
+    units=['freelist', 'txn', 'commit', 'open', 'lemmas'],
     explanation='Freed space is reused: release is an equality (F2: nothing kept back, nothing released early), the bound a writer passes is the oldest open reader or itself (X1) '
                 'and a closing reader removes exactly its own id keeping the list ascending (X2); allocate is first-fit and COMPLETE (F1: None only if no run exists) and the file is '
                 'extended only on None (T1); what is persisted is free + pending with exact length/multiset accounting (F4, W1 w6) and the old free-list run itself is released; '
@@ -27,6 +28,7 @@ A_SEQ = 'sequential view of Mutex/RwLock (prelude/sync.rs): a lock yields the va
 
 PROPS['C12'] = dict(
     level='proof',
+    composition='Verus lemmas L4: lemma_single_byte_damage_detected / lemma_hash_field_damage_detected (meta unit, from the proved FNV-1a sensitivity lemmas), lemma_fallback_to_intact_slot / lemma_newest_wins (db unit)',
     units=['meta', 'db', 'freelist'],
     kani_quick=['layout'],
     explanation='Header damage falls back: DBInner::meta returns exactly select_header (newest slot that is tagged META and whose checksum '
@@ -58,6 +60,7 @@ A_PAGEMUT = 'in-memory page construction (prelude/pagemut.rs): the header record
 
 PROPS['C02'] = dict(
     level='proof',
+    composition='paper (DESIGN section 5, L1) from the machine-checked clauses (w1)-(w3) of write_data, M3 and lemma_newest_wins / lemma_fallback_to_intact_slot',
     units=['commit', 'freelist', 'meta', 'db'],
     kani_quick=['layout'],
     explanation='Crash atomicity: TxInner::write_data is verified on its real body against a file stand-in whose every operation may fail: '
@@ -84,7 +87,8 @@ PROPS['C11'] = dict(
 
 PROPS['C03'] = dict(
     level='proof',
-    units=['txn', 'freelist', 'commit'],
+    composition='Verus lemmas L2 (contracts/lemmas.vtmpl: lemma_begin_reader, lemma_end_reader, lemma_commit) over an abstract state whose transitions are written with the spec functions of the code contracts; the identification of each transition with the corresponding function postcondition is by reading (same spec fns)',
+    units=['txn', 'freelist', 'commit', 'lemmas'],
     explanation='Snapshot protection: Tx::new (X1) is verified on its real body: a writer releases exactly the pending pages of transactions older than '
                 'open_ro_txs[0] (the oldest open reader, because the list is kept ascending: lock invariant re-established at every guard release) or, '
                 'with no reader, older than itself (F2 is an equality: nothing more, nothing less); a reader gets an unchanged copy of the free list and registers its '
@@ -164,7 +168,8 @@ PROPS['C07'] = dict(
 
 PROPS['C05'] = dict(
     level='proof',
-    units=['freelist', 'commit', 'open', 'pagenode'],
+    composition='the accounting part of INV (pending pages below the high-water mark, not free, pending once; live pages not free) is preserved by begin/end reader and commit: Verus lemma L2 (contracts/lemmas.vtmpl) under assumptions A1/A2',
+    units=['freelist', 'commit', 'open', 'pagenode', 'lemmas'],
     kani_quick=['layout'],
     kani_thorough=['codec'],
     explanation='Page accounting, allocator and serialisation side (the tree-shape half is outside): the allocator never hands out a page that is pending, already allocated in this transaction or a header page, '
